@@ -11,7 +11,7 @@ import fastavro
 
 from core import Run, REPO
 from driver import run_batch
-from wire import to_wire, canon
+from wire import to_wire, canon, exc_class
 from props.common import scale, depth_of
 from props.container_common import CODECS, spec_parse, spec_write, decomp_table, ParseError, records_schema_cases
 from props.c04 import build_cases, write_impl, resolve_interval
@@ -133,6 +133,101 @@ def run(tier, seed):
                            "announces another schema than a fresh copy of the edited schema gives", kind="oracle")
         elif [b["comp"] for b in p2["blocks"]] != [b["comp"] for b in pw["blocks"]]:
             run.fail(case, "the blocks of a file written with an edited schema object differ from those written with a fresh copy", kind="oracle")
+    # ---------------- (i-a3) the incremental Writer with data it refuses — in particular right after a block went out: every
+    # block still holds exactly its announced number of records
+    from props.c04 import spoil
+    from fastavro.write import Writer as _Writer
+    for c in cases[:scale(tier, 80)]:
+        s0 = c["schema"]
+        if not (isinstance(s0, dict) and s0.get("type") in ("record", "array") and c["records"]):
+            continue
+        ps = fastavro.parse_schema(json.loads(json.dumps(s0)))
+        fo = io.BytesIO()
+        w = _Writer(fo, ps, codec=c["codec"], sync_interval=rnd.choice([0, 1, 40, 16000]), sync_marker=bytes(range(16)))
+        accepted, plan = [], []
+        usable = True
+        for rec in c["records"][:6]:
+            try:
+                fastavro.schemaless_writer(io.BytesIO(), ps, rec)
+            except Exception:  # noqa  (a datum of the generator that is not a conforming one)
+                usable = False
+                break
+            w.write(rec)
+            accepted.append(rec)
+            plan.append("good")
+            if rnd.random() < 0.6:
+                w.flush()
+                plan.append("flush")
+            bad = spoil(rec, s0) if rnd.random() < 0.8 else None
+            if bad is not None:
+                try:
+                    fastavro.schemaless_writer(io.BytesIO(), ps, bad)
+                    bad = None
+                except Exception:  # noqa
+                    pass
+            if bad is not None:
+                try:
+                    w.write(bad)
+                    usable = False          # (accepted after all: not a refusal scenario)
+                except Exception:  # noqa
+                    plan.append("refused")
+        if not usable:
+            continue
+        w.flush()
+        data = fo.getvalue()
+        case = {"schema": s0, "codec": c["codec"], "plan": plan, "tags": ["incremental-with-refusals"]}
+        run.count(case, True, ["own-file:incremental-with-refusals"])
+        try:
+            parsed = spec_parse(data)
+            recovered = []
+            for b in parsed["blocks"]:
+                bio = io.BytesIO(CODECS[c["codec"]][1](b["comp"]))
+                for _ in range(b["count"]):
+                    recovered.append(canon(to_wire(fastavro.schemaless_reader(bio, ps))))
+                if bio.read(1) != b"":
+                    raise ValueError("block at %d: payload longer than its %d records" % (b["offset"], b["count"]))
+            want = []
+            for r_ in accepted:
+                bo = io.BytesIO()
+                fastavro.schemaless_writer(bo, ps, r_)
+                want.append(canon(to_wire(fastavro.schemaless_reader(io.BytesIO(bo.getvalue()), ps))))
+            if recovered != want:
+                raise ValueError("the blocks hold %d records, %d were accepted (or they differ)" % (len(recovered), len(want)))
+        except Exception as e:  # noqa
+            run.fail(case, "a file written record by record, some data refused, does not have the prescribed layout: %r" % (e,), kind="oracle")
+    # ---------------- (i-a4) one block reader, repositioned to other block boundaries (what the offsets are for): every block it
+    # then yields reports where it was actually read
+    for c in cases[:scale(tier, 60)]:
+        if len(c["records"]) < 3:
+            continue
+        try:
+            ps = fastavro.parse_schema(json.loads(json.dumps(c["schema"])))
+            fo = io.BytesIO()
+            fastavro.writer(fo, ps, c["records"], codec=c["codec"], sync_interval=1)
+            data = fo.getvalue()
+            parsed = spec_parse(data)
+        except Exception:
+            continue
+        blocks = parsed["blocks"]
+        if len(blocks) < 3:
+            continue
+        st = io.BytesIO(data)
+        br = fastavro.block_reader(st)
+        case = {"schema": c["schema"], "codec": c["codec"], "n_blocks": len(blocks), "tags": ["block-reader-repositioned"]}
+        run.count(case, True, ["block-reader-repositioned"])
+        try:
+            first = next(br)
+            seen = [(first.offset, first.size, first.num_records)]
+            for j in [len(blocks) - 1, 1, 1, 0, 2]:
+                st.seek(blocks[j]["offset"])
+                b = next(br)
+                seen.append((b.offset, b.size, b.num_records))
+                if (b.offset, b.size, b.num_records) != (blocks[j]["offset"], blocks[j]["size"], blocks[j]["count"]):
+                    case["got"], case["expected"] = seen, [(x["offset"], x["size"], x["count"]) for x in blocks]
+                    run.fail(case, "a block reader repositioned to the start of block %d reports another offset / size for it" % j, kind="oracle")
+                    break
+        except Exception as e:  # noqa
+            run.fail(dict(case, error=repr(e)[:200]), "a block reader repositioned to a block boundary raised %s" % exc_class(e), kind="oracle")
     # ---------------- (i-b) a file that was appended to must still have the prescribed layout
     for c in cases[:scale(tier, 60)]:
         if not c["records"]:
